@@ -14,6 +14,7 @@
 import Upnp.Model.C10Notify
 namespace Upnp.C11
 open Upnp PyDict Upnp.C09 Upnp.C10
+variable [FloatOracle]
 
 inductive Ev
   | start (svc : Nat) (timeout : Int)
@@ -35,17 +36,34 @@ inductive Out
   | nothing
 deriving Repr
 
-/-- replay of the backlog items of one SID, in order (each `handle_notify` runs to completion) -/
+/-- replay of the backlog items of one SID, in order, when every `handle_notify` returns -/
 def replay (h : Handler) (items : List Notify) (tick : Nat) : Handler :=
   items.foldl (fun acc n => (handleNotify acc n tick).1) h
+
+/-- the replay as coded: `await self.handle_notify(...)` per item; an exception (a body that is not XML)
+    leaves the loop — and `async_subscribe` — at once -/
+def replayE (h : Handler) : List Notify → Nat → Handler × Option NRes
+  | [], _ => (h, none)
+  | n :: r, tick =>
+    let p := handleNotify h n tick
+    match p.2 with
+    | .status _ => replayE p.1 r tick
+    | e => (p.1, some e)
+
+def excOfNRes : NRes → Exc
+  | .parseError => .parseError
+  | .keyError => .keyError
+  | _ => .other
 
 /-- the tail of `async_subscribe` once the response is there -/
 def finishSubscribe (h : Handler) (svc : Nat) (timeout : Int) (r : Reaction) (tick : Nat) : Handler × Result :=
   let fin := subscribeFinish h.rt svc timeout r
   match fin.2 with
   | .sub sid g =>
-    let h1 := replay { h with rt := fin.1 } ((get? h.backlog sid).getD []) tick
-    ({ h1 with backlog := erase h1.backlog sid }, .sub sid g)
+    let p := replayE { h with rt := fin.1 } ((get? h.backlog sid).getD []) tick
+    match p.2 with
+    | some e => (p.1, .exc (excOfNRes e))     -- the SID is registered, the backlog entry stays
+    | none => ({ p.1 with backlog := erase p.1.backlog sid }, .sub sid g)
   | res => ({ h with rt := fin.1 }, res)
 
 def step (cfg : Cfg) (s : St) (e : Ev) (tick : Nat) : St × Out :=
